@@ -2,5 +2,7 @@
    (collect / reset_collect are operations of [step]).  ExtrOcamlBasic only. *)
 Require Extraction.
 Require Import ExtrOcamlBasic.
+From Coq Require Import ZArith.
 From SWH.model Require Import Merkle.
-Extraction "extract/C14/model.ml" run step cached hashed.
+(* Z.of_N only so that the shared ocaml/conv.ml finds the type z *)
+Extraction "extract/C14/model.ml" run step cached hashed Z.of_N.
